@@ -5,6 +5,11 @@
      dc:h cc:h:g mc:h:g vc:h:g rc:h:o dt:h        constructors (default copy move converting raw) / destructor
      ca:h:g ma:h:g ra:h:o                         copy / move / raw assignment      (o = object id or - for null)
      ri:o rd:o                                    explicit refInc / refDec
+     vm:h:g    IntrusivePtr<Base> x(std::move(derived handle g))       (converting constructor, rvalue argument)
+     vt:h:o    IntrusivePtr<Base> x = IntrusivePtr<Derived>(o)         (from a temporary: raw ctor; conversion; ~temporary)
+     va:h:g vr:h:g   base = derived;  base = std::move(derived);       (temporary by conversion; move assignment; ~temporary)
+     kc:h      { IntrusivePtr<const Base> c = std::move(h); }          (conversion to const T from an rvalue; ~c)
+   composite tokens use one scratch handle slot (index NB+ND) that is dead before and after
    stdout per history: per step "ok|objs|handles|cmps" joined by " ; "
      objs:    c<useCount> (alive) | x (destroyed)           handles: . (no handle) | 0 (null) | k (object k-1)
      cmps:    for every pair a<b of live handles of the same static type: e (==) | n (!=) *)
@@ -29,7 +34,15 @@ let parse tok = match String.split_on_char ':' tok with
   | ["ra"; h; o] -> RawAssign (nat (ios h), optid o)
   | ["ri"; o] -> RefInc (nat (ios o))
   | ["rd"; o] -> RefDec (nat (ios o))
+  | ["vm"; h; g] -> ConvMoveCtor (nat (ios h), nat (ios g))
   | _ -> failwith ("bad op " ^ tok)
+(* a token is a sequence of model operations; t = scratch slot *)
+let parse_seq t tok = match String.split_on_char ':' tok with
+  | ["vt"; h; o] -> [RawCtor (nat t, optid o); ConvMoveCtor (nat (ios h), nat t); Dtor (nat t)]
+  | ["va"; h; g] -> [ConvCtor (nat t, nat (ios g)); MoveAssign (nat (ios h), nat t); Dtor (nat t)]
+  | ["vr"; h; g] -> [ConvMoveCtor (nat t, nat (ios g)); MoveAssign (nat (ios h), nat t); Dtor (nat t)]
+  | ["kc"; h] -> [ConvMoveCtor (nat t, nat (ios h)); Dtor (nat t)]
+  | _ -> [parse tok]
 let () =
   let nb = ios Sys.argv.(1) and nd = ios Sys.argv.(2) in
   let use_gen = Array.length Sys.argv > 3 && Sys.argv.(3) = "gen" in
@@ -52,11 +65,13 @@ let () =
     let line = input_line stdin in
     let toks = List.filter (fun s -> s <> "") (String.split_on_char ' ' line) in
     let _, outs = List.fold_left (fun (s, acc) tok ->
-        let o = parse tok in
-        let (s', ok) =
-          if use_gen then (if legal s o then (exec_op gen_table s o, true) else (s, false))
+        let one s o =
+          if use_gen then (if legal s o then (exec_op_s gen_sel gen_table s o, true) else (s, false))
           else step s o in
+        (* all-or-nothing: a token whose first operation is outside the contract is rejected *)
+        let (s', ok) = List.fold_left (fun (st, ok) o -> if ok then one st o else (st, false)) (s, true) (parse_seq n tok) in
+        let s' = if ok then s' else s in
         let flag = if s'.s_heap.err then "ERR|" else if ok then "ok|" else "bad|" in
-        (s', (flag ^ observe s') :: acc)) (init (nat n), []) toks in
+        (s', (flag ^ observe s') :: acc)) (init (nat (n + 1)), []) toks in
     print_endline (String.concat " ; " (List.rev outs))
   done with End_of_file -> ()
